@@ -9,6 +9,8 @@ EXTENDS Props, Randomization, Json
 CONSTANTS
     Topics, Descs, Mons, RecKeys, RecVals,     \* aol alphabet
     FeePayers,                                  \* fee payer choices of AddRecord: subset of Accts \cup {"none"}
+    LegacyGenesis,                              \* BOOLEAN: the chain starts with a legacy registry entry (key "dc" holding a document about "d1", as chains could
+                                                \* contain before the did/document binding was enforced; genesis validation admits it)
     ForeignVm,                                  \* BOOLEAN: update/deactivate may name a verification method of another DID
     Dids, DocNames, Keys, VmNames, Seqs,        \* did alphabet (documents are built in DocByName; Seqs: sequence numbers proofs are made over)
     DenomIds, TokenIds, DNames, TDescs,         \* pnft alphabet (TDescs: token description / data values, may include "")
@@ -31,21 +33,6 @@ VARIABLES ndel,
 mcvars == <<allvars, ndel, path>>
 
 InitBal == 1000000
-
-Init ==
-    /\ height = 2 /\ phase = "in"
-    /\ aolOwners = << >> /\ aolTopics = << >> /\ aolWriters = << >> /\ aolRecords = << >>
-    /\ didReg = << >>
-    /\ pnDenoms = << >> /\ pnTokens = << >> /\ pnIndex = {} /\ pnSupply = << >>
-    /\ bal = [a \in Tracked |-> [d \in Denoms |-> IF a \in Accts THEN (IF d = "umed" THEN InitBal ELSE 1000) ELSE 0]]
-    /\ vest = {} /\ exists = Accts \cup {FeeColl}
-    /\ supply = [d \in Denoms |-> IF d = "umed" THEN InitBal * Cardinality(Accts) + 1000001 ELSE 1000 * Cardinality(Accts)]
-    /\ rest = [d \in Denoms |-> IF d = "umed" THEN 1000001 ELSE 0]
-    /\ grants = {}
-    /\ act = [name |-> "Init"]
-    /\ acked = {} /\ accepted = {} /\ delivered = << >>
-    /\ ndel = 0
-    /\ path = << >>
 
 -----------------------------------------------------------------------------
 (* message alphabets *)
@@ -87,6 +74,21 @@ AllDocs == UNION {DocsOf(d) : d \in Dids}
 \* proofs: any key, over the message's own document, another document, or a deactivation payload; sequence relative to the current one
 SeqChoices(d) == Seqs      \* absolute sequence numbers: stale, current and future ones all occur
 
+Init ==
+    /\ height = 2 /\ phase = "in"
+    /\ aolOwners = << >> /\ aolTopics = << >> /\ aolWriters = << >> /\ aolRecords = << >>
+    /\ didReg = IF LegacyGenesis THEN [d \in {"dc"} |-> [doc |-> DocByName("d1", "A1"), seq |-> 0]] ELSE << >>
+    /\ pnDenoms = << >> /\ pnTokens = << >> /\ pnIndex = {} /\ pnSupply = << >>
+    /\ bal = [a \in Tracked |-> [d \in Denoms |-> IF a \in Accts THEN (IF d = "umed" THEN InitBal ELSE 1000) ELSE 0]]
+    /\ vest = {} /\ exists = Accts \cup {FeeColl}
+    /\ supply = [d \in Denoms |-> IF d = "umed" THEN InitBal * Cardinality(Accts) + 1000001 ELSE 1000 * Cardinality(Accts)]
+    /\ rest = [d \in Denoms |-> IF d = "umed" THEN 1000001 ELSE 0]
+    /\ grants = {}
+    /\ act = [name |-> "Init"]
+    /\ acked = {} /\ accepted = {} /\ delivered = << >>
+    /\ ndel = 0
+    /\ path = << >>
+
 ProofsFor(d, own) ==
     {[key |-> k, data |-> dt, seq |-> s] : k \in Keys, dt \in ({own} \cup {DeactDoc(x) : x \in Dids}), s \in SeqChoices(d)}
     \cup {[key |-> "none", data |-> own, seq |-> 0]}
@@ -116,9 +118,9 @@ DidLikely ==
                  THEN UNION { {[type |-> "did.Create", did |-> d, doc |-> dc, vm |-> a.n, vmDid |-> dc.id,
                                 proof |-> [key |-> k, data |-> dc, seq |-> 0], from |-> Relayer] : a \in dc.auth, k \in AuthKeysOf(dc)} : dc \in AllDocs \ {EmptyDoc} }
                  ELSE IF Status(c) = "active"
-                 THEN UNION { {[type |-> "did.Update", did |-> d, doc |-> dc, vm |-> a.n, vmDid |-> d,
+                 THEN UNION { {[type |-> "did.Update", did |-> d, doc |-> dc, vm |-> a.n, vmDid |-> c.doc.id,
                                 proof |-> [key |-> k, data |-> dc, seq |-> c.seq], from |-> Relayer] : a \in c.doc.auth, k \in AuthKeysOf(c.doc)} : dc \in AllDocs }
-                      \cup {[type |-> "did.Deactivate", did |-> d, vm |-> a.n, vmDid |-> d,
+                      \cup {[type |-> "did.Deactivate", did |-> d, vm |-> a.n, vmDid |-> c.doc.id,
                              proof |-> [key |-> k, data |-> DeactDoc(d), seq |-> c.seq], from |-> Relayer] : a \in c.doc.auth, k \in AuthKeysOf(c.doc)}
                  ELSE {}
                : d \in Dids }
